@@ -301,6 +301,47 @@ EXC_PARENT = {
 }
 
 
+def _exc_classes_from_source():
+    """The strax part of the exception hierarchy is READ FROM THE REAL SOURCE on every run (class statements of strax/*.py
+    whose first base is an exception class): the hand-written entries above are only the fallback for a class the scan
+    does not find.  Returns the names whose parent differs from the table (reported as an assumption-free extraction)."""
+    import glob
+    found = {}
+    for path in sorted(glob.glob(os.path.join(REPO, "strax", "**", "*.py"), recursive=True)):
+        try:
+            tree = ast.parse(open(path).read())
+        except (OSError, SyntaxError):
+            continue
+        for n in ast.walk(tree):
+            if isinstance(n, ast.ClassDef) and n.bases:
+                b = n.bases[0]
+                bname = b.attr if isinstance(b, ast.Attribute) else (b.id if isinstance(b, ast.Name) else None)
+                if bname:
+                    found.setdefault(n.name, bname)
+    builtin = {k_ for k_ in EXC_PARENT if ":" not in k_} | {"Warning", "UserWarning"}
+    known, changed = set(builtin), True
+    while changed:
+        changed = False
+        for c, b in found.items():
+            if c not in known and b in known:
+                known.add(c)
+                changed = True
+    diff = []
+    for c, b in found.items():
+        if c in known and c not in ("Exception", "BaseException") and c not in __builtins_exc:
+            if EXC_PARENT.get(c) != b:
+                diff.append((c, EXC_PARENT.get(c), b))
+            EXC_PARENT[c] = b
+    return diff
+
+
+__builtins_exc = {n_ for n_ in dir(__import__("builtins")) if isinstance(getattr(__import__("builtins"), n_), type)
+                  and issubclass(getattr(__import__("builtins"), n_), BaseException)}
+EXC_PARENT.setdefault("Warning", "Exception")
+EXC_PARENT.setdefault("UserWarning", "Warning")
+EXC_SOURCE_DIFF = _exc_classes_from_source()
+
+
 def exc_is_subclass(cls, parent):
     seen = cls
     while seen is not None:
@@ -1254,7 +1295,16 @@ class Engine:
         (an exception of the sub-generator, or one thrown in by the consumer)."""
         def cont(v, s):
             for cls in getattr(self.cur, "yield_from_raises", None) or ():
-                fr.on_raise(Exc(cls, Opq(self.fresh("yf_exc_" + cls, "V"))), s)
+                # (a contract that declares the ghost variable ``yf_failed`` is told that the sub-generator ended by raising)
+                s_r = St(s.env, s.heap, s.pc, {**s.ghost, "yf_failed": z3.BoolVal(True)}) if "yf_failed" in s.ghost else s
+                t = self.fresh("yf_exc_" + cls, "V")
+                facts = getattr(self.cur, "yield_from_facts", None)
+                if facts is not None:
+                    # assumed shape of what the sub-generator raises (listed among the assumptions of the contract)
+                    for label, f in facts(self, cls, t):
+                        self.assumptions.add(label)
+                        s_r = s_r.assume(f)
+                fr.on_raise(Exc(cls, Opq(t)), s_r)
             return k(PNONE, s)
         return self.ev(e.value, st, fr, cont)
 
@@ -1288,6 +1338,11 @@ class Engine:
         g = e.generators[0]
 
         def with_iter(it, s0):
+            hooks = getattr(self.cur, "comp_hooks", None) or {}
+            if hooks:
+                h = hooks.get(self.comp_ordinal(e))
+                if h is not None:
+                    h(self, s0, it, e)          # obligations about WHAT a comprehension iterates over
             items = None
             if isinstance(it, (list, tuple)):
                 items = list(it)
